@@ -216,7 +216,7 @@ Theorem C23_pull_from_master_equalises_guarded :
   wf_dag (graph s) = true ->
   nth_error (cos s) i = Some c -> heavy c = true ->
   is_anc_opt (graph s) (tip (lbranch c)) (tip (mbranch s)) = true ->
-  exists s' c', pull s i SMaster = (Done, s') /\ mbranch s' = mbranch s /\
+  exists s' c', pull s i SMaster None = (Done, s') /\ mbranch s' = mbranch s /\
     nth_error (cos s') i = Some c' /\ tip (lbranch c') = tip (mbranch s) /\
     (forall j, j <> i -> nth_error (cos s') j = nth_error (cos s) j).
 Proof. exact pull_from_master_equalises. Qed.
@@ -227,7 +227,7 @@ Print Assumptions C23_pull_from_master_equalises_guarded.
 Theorem C23_pull_from_master_equalises_refuted :
   exists s s' c',
     s = run (init [true] true) [Commit 0 true None] /\
-    pull s 0 SMaster = (Done, s') /\ nth_error (cos s') 0 = Some c' /\
+    pull s 0 SMaster None = (Done, s') /\ nth_error (cos s') 0 = Some c' /\
     tip (lbranch c') <> tip (mbranch s').
 Proof. eexists. eexists. eexists. repeat split; try reflexivity. cbn. discriminate. Qed.
 Print Assumptions C23_pull_from_master_equalises_refuted.
@@ -238,7 +238,7 @@ Theorem C23_pull_from_master_contains :
   forall s i c s',
   wf_dag (graph s) = true ->
   nth_error (cos s) i = Some c -> heavy c = true ->
-  pull s i SMaster = (Done, s') ->
+  pull s i SMaster None = (Done, s') ->
   mbranch s' = mbranch s /\
   exists c', nth_error (cos s') i = Some c' /\
              is_anc_opt (graph s) (tip (mbranch s)) (tip (lbranch c')) = true.
@@ -252,25 +252,48 @@ Theorem C23_pull_diverged_refused :
   nth_error (cos s) i = Some c -> heavy c = true ->
   tip (lbranch c) = Some t -> tip (mbranch s) = Some m ->
   is_ancestor (graph s) t m = false -> is_ancestor (graph s) m t = false ->
-  pull s i SMaster = (Fail (BU DivergedBranches), s).
+  pull s i SMaster None = (Fail (BU DivergedBranches), s).
 Proof. exact pull_diverged_refused. Qed.
 Print Assumptions C23_pull_diverged_refused.
 
-(* a successful pull from ANY source keeps a bound checkout that is in step with
-   its master in step (the master is pulled into first, by the same rule) *)
+(* a successful pull from ANY source, with or without a stop revision ([back = Some k]:
+   pull -r <k-th left-hand ancestor of the source tip>), keeps a bound checkout that is
+   in step with its master in step (the master is pulled into first, by the same rule
+   and with the same stop revision) *)
 Theorem C23_pull_keeps_in_step :
-  forall s i c sr s',
+  forall s i c sr back s',
   wf_dag (graph s) = true ->
   nth_error (cos s) i = Some c -> is_bound c = true ->
   tip (lbranch c) = tip (mbranch s) ->
-  pull s i sr = (Done, s') ->
+  pull s i sr back = (Done, s') ->
   exists c', nth_error (cos s') i = Some c' /\ tip (lbranch c') = tip (mbranch s').
 Proof. exact pull_keeps_in_step. Qed.
 Print Assumptions C23_pull_keeps_in_step.
 
+(* pull -r from a third branch: master and local end together on the old tip or on
+   the REQUESTED revision -- the master does not receive more than was asked for *)
+Theorem C23_pull_stop_both :
+  forall s i c j cj back s',
+  wf_dag (graph s) = true ->
+  nth_error (cos s) i = Some c -> is_bound c = true ->
+  nth_error (cos s) j = Some cj -> heavy cj = true ->
+  tip (lbranch c) = tip (mbranch s) ->
+  pull s i (SCo j) back = (Done, s') ->
+  let e := eff_stop (lbranch cj) (stop_back (graph s) (lbranch cj) back) in
+  (tip (mbranch s') = tip (mbranch s) \/ tip (mbranch s') = e) /\
+  exists c', nth_error (cos s') i = Some c' /\ tip (lbranch c') = tip (mbranch s').
+Proof. exact pull_stop_both. Qed.
+Print Assumptions C23_pull_stop_both.
+
+Example C23_pull_stop_both_ex :
+  let s := run (init [false; true; true] true) [Commit 2 true None; Commit 2 true None; Commit 2 true None] in
+  exists s' c', pull s 1 (SCo 2) (Some 1) = (Done, s') /\ nth_error (cos s') 1 = Some c' /\
+                tip (lbranch c') = Some 2 /\ tip (mbranch s') = Some 2.
+Proof. eexists. eexists. repeat split; reflexivity. Qed.
+
 Example C23_pull_keeps_in_step_ex :
   let s := run (init [false; true; true] true) [Commit 2 true None] in
-  exists s' c', pull s 1 (SCo 2) = (Done, s') /\ nth_error (cos s') 1 = Some c' /\
+  exists s' c', pull s 1 (SCo 2) None = (Done, s') /\ nth_error (cos s') 1 = Some c' /\
                 tip (lbranch c') = Some 1 /\ tip (mbranch s') = Some 1.
 Proof. eexists. eexists. repeat split; reflexivity. Qed.
 
@@ -311,5 +334,5 @@ Example C23_never_ahead_needs_nolocal :
 Proof. eexists. split; [left; reflexivity|]. split; reflexivity. Qed.
 
 Example C23_never_ahead_ex :
-  forallb nolocal [Commit 1 false (Some 1); Update 1; Commit 2 false None; Pull 1 SMaster; Bind 1] = true.
+  forallb nolocal [Commit 1 false (Some 1); Update 1; Commit 2 false None; Pull 1 SMaster (Some 1); Bind 1] = true.
 Proof. reflexivity. Qed.
